@@ -107,10 +107,106 @@ def decompress (dec : Section → Section) (t : ET) (arg0 : SVal) : Except Fault
 
 def natsToInts (d : List Nat) : List Int := d.map Int.ofNat
 
+/-- `hex::encode` / `hex::encode_upper` of every element (the `UnhexpackStrings` arm builds the strings in one
+    buffer of its own; no capacity assertion as in the query operator). -/
+def hexAll (upper : Bool) (es : List (List Nat)) : List Bytes := es.map (hexEncode upper)
+
+/-- The `match codec_op { … }` of one loop iteration (every op except `PushDataSection`): the decoded value and
+    the stack as the arm leaves it (`Nullable` and `DictLookup` pop their operands; the other arms only read
+    `arg0 = section_stack.first()`). -/
+def arm2 (dec : Section → Section) (op : Op) (arg0 : SVal) (st : List SVal) : Except Fault (SVal × List SVal) :=
+  match op with
+  | .push _ => .error .unreachable            -- handled by `step2` (`continue`)
+  | .nullable =>
+      -- let present = section_stack.pop().unwrap(); let mut data = section_stack.pop().unwrap();
+      match st with
+      | present :: data :: rest =>
+          match castNat .u8 present with
+          | .error e => .error e
+          | .ok bm =>
+            match makeNullable data bm with
+            | .error e => .error e
+            | .ok d => .ok (d, rest)
+      | _ => .error .unwrap
+  | .add t x =>
+      match t with
+      | .u64 => .error .unreachable          -- `_ => panic!("Unsupported encoding type for CodecOp::Add")`
+      | t =>
+        match castNat t arg0 with
+        | .error e => .error e
+        | .ok d =>
+          match addAll x (natsToInts d) with  -- `v as i64 + value` (dev profile: checked)
+          | .error e => .error e
+          | .ok r => .ok (⟨.i64 r, none⟩, st)
+  | .delta t =>
+      match t with
+      | .w .u64 => .error .unreachable
+      | .w w =>
+        match castNat w arg0 with
+        | .error e => .error e
+        | .ok d =>
+          match deltaDecode 0 (natsToInts d) with   -- `current += *delta as i64`
+          | .error e => .error e
+          | .ok r => .ok (⟨.i64 r, none⟩, st)
+      | .i64 =>
+        match castI64 arg0 with
+        | .error e => .error e
+        | .ok d =>
+          match deltaDecode 0 d with
+          | .error e => .error e
+          | .ok r => .ok (⟨.i64 r, none⟩, st)
+  | .toI64 t =>
+      match t with
+      | .u64 => .error .unreachable
+      | t =>
+        match castNat t arg0 with
+        | .error e => .error e
+        | .ok d => .ok (⟨.i64 (natsToInts d), none⟩, st)
+  | .dict t =>
+      -- dict_data = pop().unwrap().cast_ref_u8(); string_ranges = pop().unwrap().cast_ref_u64();
+      -- indices = pop().unwrap().cast_ref_<t>()
+      match st with
+      | dd :: di :: ix :: rest =>
+          match castNat .u8 dd, castNat .u64 di, castNat t ix with
+          | .ok data, .ok idx, .ok is =>
+              match dictLookup idx data is with
+              | .error e => .error e
+              | .ok r => .ok (⟨.str r, none⟩, rest)
+          | _, _, _ => .error .unreachable
+      | _ => .error .unwrap
+  | .lz4 t _ =>
+      -- U8 | U16 | U32 | U64 | I64 | F64
+      match decompress dec t arg0 with
+      | .error e => .error e
+      | .ok v => .ok (v, st)
+  | .pco t _ _ =>
+      match decompress dec t arg0 with
+      | .error e => .error e
+      | .ok v => .ok (v, st)
+  | .unpack =>
+      -- `backing.push(arg0.cast_ref_u8().to_vec())`, `StringPackerIterator` over that copy
+      match castNat .u8 arg0 with
+      | .error e => .error e
+      | .ok d =>
+        match unpackAll d with
+        | .error e => .error e
+        | .ok r => .ok (⟨.str (r.map toBytes), none⟩, st)
+  | .unhex upper _ =>
+      -- `PackedBytesIterator::from_slice(arg0.cast_ref_u8())`, `hex::encode(_upper)` of every element
+      match castNat .u8 arg0 with
+      | .error e => .error e
+      | .ok d =>
+        match unpackAll d with
+        | .error e => .error e
+        | .ok es => .ok (⟨.str (hexAll upper es), none⟩, st)
+
 /-- One iteration of `for codec_op in codec.ops()`.
-    `let arg0 = section_stack.first().unwrap();` is evaluated for every op, before the `match`;
-    after the `match`:  `section_stack.pop(); section_stack.push(decoded);`  (a `pop` of an empty `Vec` is `None`,
-    ignored) — except `PushDataSection`, which pushes and `continue`s. -/
+    `let arg0 = section_stack.first().unwrap();` and
+    `let null_map = if arg0.get_type().is_nullable() { Some(arg0.cast_ref_null_map().to_vec()) } else { None };`
+    are evaluated for every op, before the `match`; after the `match`:
+    `if let Some(present) = null_map { decoded = decoded.make_nullable(&present) }`,
+    `section_stack.pop(); section_stack.push(decoded);`  (a `pop` of an empty `Vec` is `None`, ignored) —
+    except `PushDataSection`, which pushes and `continue`s. -/
 def step2 (dec : Section → Section) (secs : List Section) (op : Op) (st : List SVal) :
     Except Fault (List SVal) :=
   match st.getLast? with
@@ -121,86 +217,16 @@ def step2 (dec : Section → Section) (secs : List Section) (op : Op) (st : List
         match secs[i]? with
         | some s => .ok (ofSection s :: st)
         | none => .error .index
-    | .nullable =>
-        -- let present = section_stack.pop().unwrap(); let mut data = section_stack.pop().unwrap();
-        match st with
-        | present :: data :: rest =>
-            match castNat .u8 present with
-            | .error e => .error e
-            | .ok bm =>
-              match makeNullable data bm with
-              | .error e => .error e
-              | .ok d => .ok (d :: rest.tail)
-        | _ => .error .unwrap
-    | .add t x =>
-        match t with
-        | .u64 => .error .unreachable          -- `_ => panic!("Unsupported encoding type for CodecOp::Add")`
-        | t =>
-          match castNat t arg0 with
+    | op =>
+      match arm2 dec op arg0 st with
+      | .error e => .error e
+      | .ok (decoded, st') =>
+        match arg0.present with
+        | none => .ok (decoded :: st'.tail)
+        | some bm =>
+          match makeNullable decoded bm with
           | .error e => .error e
-          | .ok d =>
-            match addAll x (natsToInts d) with  -- `v as i64 + value` (dev profile: checked)
-            | .error e => .error e
-            | .ok r => .ok (⟨.i64 r, none⟩ :: st.tail)
-    | .delta t =>
-        match t with
-        | .w .u64 => .error .unreachable
-        | .w w =>
-          match castNat w arg0 with
-          | .error e => .error e
-          | .ok d =>
-            match deltaDecode 0 (natsToInts d) with   -- `current += *delta as i64`
-            | .error e => .error e
-            | .ok r => .ok (⟨.i64 r, none⟩ :: st.tail)
-        | .i64 =>
-          match castI64 arg0 with
-          | .error e => .error e
-          | .ok d =>
-            match deltaDecode 0 d with
-            | .error e => .error e
-            | .ok r => .ok (⟨.i64 r, none⟩ :: st.tail)
-    | .toI64 t =>
-        match t with
-        | .u64 => .error .unreachable
-        | t =>
-          match castNat t arg0 with
-          | .error e => .error e
-          | .ok d => .ok (⟨.i64 (natsToInts d), none⟩ :: st.tail)
-    | .dict t =>
-        -- dict_data = pop().unwrap().cast_ref_u8(); string_ranges = pop().unwrap().cast_ref_u64();
-        -- indices = pop().unwrap().cast_ref_<t>()
-        match st with
-        | dd :: di :: ix :: rest =>
-            match castNat .u8 dd, castNat .u64 di, castNat t ix with
-            | .ok data, .ok idx, .ok is =>
-                match dictLookup idx data is with
-                | .error e => .error e
-                | .ok r => .ok (⟨.str r, none⟩ :: rest.tail)
-            | _, _, _ => .error .unreachable
-        | _ => .error .unwrap
-    | .lz4 t _ =>
-        match t with
-        | .u8 | .i64 | .f64 =>
-            match decompress dec t arg0 with
-            | .error e => .error e
-            | .ok v => .ok (v :: st.tail)
-        | _ => .error .unreachable              -- `other => panic!("Unsupported encoding type for CodecOp::LZ4")`
-    | .pco t _ _ =>
-        match decompress dec t arg0 with
-        | .error e => .error e
-        | .ok v => .ok (v :: st.tail)
-    | .unpack =>
-        -- `let packed: &[u8] = sections[0].cast_ref_u8();`   — section 0, NOT the stack
-        match secs[0]? with
-        | none => .error .index
-        | some s0 =>
-          match castNat .u8 (ofSection s0) with
-          | .error e => .error e
-          | .ok d =>
-            match unpackAll d with
-            | .error e => .error e
-            | .ok r => .ok (⟨.str (r.map toBytes), none⟩ :: st.tail)
-    | .unhex _ _ => .error .todo                -- `CodecOp::UnhexpackStrings(_, _) => todo!()`
+          | .ok d => .ok (d :: st'.tail)
 
 def run2 (dec : Section → Section) (secs : List Section) : List Op → List SVal → Except Fault (List SVal)
   | [], st => .ok st
@@ -349,30 +375,6 @@ def dictOps (w : Width) (nullable : Bool) : List Op :=
 def packedOps (hex : Option (Bool × Nat)) (nullable : Bool) : List Op :=
   let base : List Op := match hex with | some (u, total) => [.unhex u total] | none => [.unpack]
   if nullable then base ++ [.push 1, .nullable] else base
-
-/-! ### where the free `decode` is known to be wrong (classifiers of the open findings; the SAME functions are the
-    hypotheses of the `_partial` theorems and what the driver evaluates on every case) -/
-
-/-- some op that needs the null map comes after `Nullable` (finding `compaction-decode-nullmap-dropped`) -/
-def elementwiseAfterNullable : List Op → Bool
-  | [] => false
-  | .nullable :: rest => rest.any fun o => match o with | .toI64 _ | .add _ _ | .dict _ | .delta _ => true | _ => false
-  | _ :: rest => elementwiseAfterNullable rest
-
-/-- finding `compaction-hexpacked-todo` -/
-def hasUnhex (ops : List Op) : Bool := ops.any fun o => match o with | .unhex _ _ => true | _ => false
-def hasUnpack (ops : List Op) : Bool := ops.any fun o => match o with | .unpack => true | _ => false
-/-- finding `compaction-decode-lz4-narrow-type` -/
-def lz4Narrow (ops : List Op) : Bool :=
-  ops.any fun o => match o with | .lz4 .u16 _ | .lz4 .u32 _ | .lz4 .u64 _ => true | _ => false
-def compressed (ops : List Op) : Bool :=
-  match ops with | .lz4 _ _ :: _ => true | .pco _ _ _ :: _ => true | _ => false
-/-- finding `compaction-decode-unpack-section0` -/
-def unpackCompressed (ops : List Op) : Bool := hasUnpack ops && compressed ops
-
-/-- the codec shapes on which the free `decode` is claimed (and proved) to agree with the query path -/
-def Supported (ops : List Op) : Bool :=
-  !hasUnhex ops && !lz4Narrow ops && !unpackCompressed ops && !elementwiseAfterNullable ops
 
 /-- the op lists of `ImgBase` (decidable; the driver checks every real column against it) -/
 def baseShape (ops : List Op) : Bool :=
